@@ -125,10 +125,11 @@ def scopes_for_owner(owner: NixExpression) -> tuple[Scope, ...]:
                         "with environment must resolve to an attribute set"
                     )
         elif isinstance(environment, Scope):
-            env_scope = environment
+            env_scope = Scope(environment, owner=environment.owner)
         else:
             raise ResolutionError("with environment must resolve to an attribute set")
         if env_scope is not None:
+            env_scope.is_with_env = True
             scopes.append(env_scope)
 
     from nix_manipulator.expressions.function.call import FunctionCall  # type: ignore
